@@ -20,6 +20,7 @@ RULE = (
     "with an unchanged ascending list of n partitions is a permutation of the list. "
     "non-trivial = key with len % 4 != 0 whose tail contains a byte >= 0x80, or a non-ASCII text key, or a history "
     "with a list change strictly inside a cycle; distinct = distinct key / distinct history."
+    " Through the producer (engine PROD, observing partitioner subclasses): one partitioner instance per topic, every window of n consecutive round-robin selections over an unchanged list is a permutation of it - also across metadata reloads; hashed selections equal a fresh instance's; a hashed partitioner built for a longer/shorter list than the one passed selects like the Java client."
 )
 ASSUMPTIONS = [
     "ref/Murmur2Ref.java is a faithful transcription of org.apache.kafka.common.utils.Utils.murmur2 (checked at "
